@@ -938,13 +938,15 @@ int _vnacal_new_solve_internal(vnacal_new_t *vnp)
 	    free((void *)vpmrp->vpmr_frequency_vector);
 	    vpmrp->vpmr_frequency_vector = NULL;
 	    vpmrp->vpmr_frequencies = 0;
-	    if ((vpmrp->vpmr_frequency_vector = calloc(frequencies,
-			    sizeof(double))) == NULL) {
-		_vnacal_error(vcp, VNAERR_SYSTEM,
-			"calloc: %s", strerror(errno));
-		goto out;
+	    if (frequencies != 0) {
+		if ((vpmrp->vpmr_frequency_vector = calloc(frequencies,
+				sizeof(double))) == NULL) {
+		    _vnacal_error(vcp, VNAERR_SYSTEM,
+			    "calloc: %s", strerror(errno));
+		    goto out;
+		}
+		vpmrp->vpmr_frequencies = frequencies;
 	    }
-	    vpmrp->vpmr_frequencies = frequencies;
 	}
 	if (frequencies != 0) {
 	    (void)memcpy((void *)vpmrp->vpmr_frequency_vector,
